@@ -39,7 +39,7 @@ PROPS = {
  "C08": dict(jobs=[CORPUS, chain("oracle", 50, 800), chain("mixed", 10, 200), pure(800, 20000)], rule=NONTRIVIAL,
              assumptions=BASE_ASSUME + ["each theorem fixes the vote period over the history; parameter changes in mid-round are outside the statement"]),
  "C09": dict(jobs=[CORPUS, chain("admin", 40, 600), chain("settle", 20, 300), ante(10, 150)], rule=NONTRIVIAL, assumptions=BASE_ASSUME),
- "C10": dict(jobs=[CORPUS, chain("settle", 40, 600), chain("oracle", 25, 400)], rule=NONTRIVIAL,
+ "C10": dict(jobs=[CORPUS, chain("settle", 40, 600), chain("oracle", 25, 400), ante(6, 100)], rule=NONTRIVIAL,
              assumptions=BASE_ASSUME + ["ERC-721 ownerOf is a parameter of the model; the harness answers it from a table"]),
  "C11": dict(jobs=[CORPUS, chain("fault", 50, 800), chain("settle", 20, 300)], rule=NONTRIVIAL + "; fault histories fail the k-th backend call of a block",
              assumptions=BASE_ASSUME + ["real ERC-20 internals are replaced by a stub that fails at the injected position"]),
